@@ -38,10 +38,18 @@ SCHED_ASSUME = [
     "sequence numbers are taken inside job bodies from one global atomic counter; the goroutine census parses runtime.Stack output",
 ]
 
+def fuzz(seconds_t, **kw):
+    """Native go test -fuzz stage over the E-SCHED-RT property (rapid.MakeFuzz); thorough tier only."""
+    d = dict(name="fuzz", module="sched", go=GO, test="FuzzRT", shards=1, fuzz=True,
+             checks={"quick": 0, "thorough": seconds_t})
+    d.update(kw)
+    return d
+
+
 PROPS = {}
 
 PROPS["C01"] = dict(
-    stages=[st(12000, 400000), rt(2500, 100000)],
+    stages=[st(12000, 400000), rt(2500, 100000), fuzz(150)],
     rule="cases = rapid-generated scheduler executions (DAG with multiset deps drawn from earlier jobs, N, fail-fast/COE, per-job behaviour ok/error/Goexit/cancel, body timing, enqueue pacing incl. await-dependency-finished, ctx layout, emitter, hook perturbation plan); non-trivial = some job has >=2 distinct dependencies, or a duplicated dependency, or is enqueued only after one of its dependencies finished; distinct = hash(DAG, N, mode, behaviours, ctx layout)",
     assumptions=SCHED_ASSUME,
 )
@@ -51,7 +59,7 @@ PROPS["C03"] = dict(
     assumptions=SCHED_ASSUME + ["a worker that is exiting after runtime.Goexit may still be visible in a census: the bound allows one extra goroutine per Goexit job in the case"],
 )
 PROPS["C05"] = dict(
-    stages=[st(12000, 400000), rt(2000, 60000)],
+    stages=[st(12000, 400000), rt(2000, 60000), fuzz(150)],
     rule="cases as C01 with emphasis on failures, Goexit, cancellation (in-job, pre, timer) and a 'parked job' scenario (a job blocks until Wait has returned while the context gets cancelled); oracle = testing/synctest reports 'all goroutines in bubble are blocked' exactly when Wait/Enqueue can never return (real-time flavour: 30s watchdog confirmed by two identical all-blocked goroutine censuses, else inconclusive); non-trivial = fail-fast failure observed while Enqueues were still to come, or a Goexit job, or a cancellation during the run, or the parked-job scenario; distinct = hash(case)",
     assumptions=SCHED_ASSUME + ["liveness is decided as 'no sampled reachable state is a deadlock'; unbounded fairness is out of reach of testing"],
 )
@@ -61,17 +69,17 @@ PROPS["C06"] = dict(
     assumptions=SCHED_ASSUME,
 )
 PROPS["C07"] = dict(
-    stages=[st(12000, 400000), rt(2500, 100000)],
+    stages=[st(12000, 400000), rt(2500, 100000), fuzz(150)],
     rule="fail-fast cases with non-empty failing sets (unique error values), incl. jobs enqueued after the failure was observed; oracle = nil => every job ran exactly once and returned nil and ctx not cancelled; non-nil => errors.Is one of the errors of a job that ran and failed (or the Goexit error, or the ctx error when a ctx was cancelled); no started job has a failed transitive dependency; non-trivial = >=2 failing jobs, or a failure with a dependent, or an Enqueue after the first failure finished; distinct = hash(case)",
     assumptions=SCHED_ASSUME,
 )
 PROPS["C08"] = dict(
-    stages=[st(12000, 400000), rt(2500, 100000)],
+    stages=[st(12000, 400000), rt(2500, 100000), fuzz(150)],
     rule="ContinueOnError cases; oracle = exact reference model: ran == {jobs whose transitive dependencies all succeed}, each once; multierr.Errors(err) as a multiset of identities == errors of failed jobs (+ only ctx errors when a cancellation is part of the case); no 'job invalid' sentinel; non-trivial = >=3 failures, or a failed job with a depth>=2 dependent, or a dependent enqueued after its dependency failed; distinct = hash(case)",
     assumptions=SCHED_ASSUME,
 )
 PROPS["C09"] = dict(
-    stages=[st(12000, 400000), rt(2500, 100000)],
+    stages=[st(12000, 400000), rt(2500, 100000), fuzz(150)],
     rule="cases with cancellation (before the first Enqueue, inside a job, from a timer) x ctx layout x N x mode x parked-job scenario; causal oracle: a job is forbidden if it depends on the cancelling job, or was enqueued after cancel() returned, or (N=1, in-job cancel) started after cancel() returned; forbidden jobs never start; Wait returns non-nil when its ctx was surely done; Wait returns while a job is still parked; every body receives the ctx it was enqueued with; non-trivial = cancellation happened and at least one root-ctx job was thereby not started, or pre-cancelled, or parked-job scenario; distinct = hash(case)",
     assumptions=SCHED_ASSUME,
 )
